@@ -51,6 +51,9 @@ def noise_texture(rng, shape, kind):
         k = max(1, shape[0] * shape[1] // 40)
         n[nrng.randint(0, shape[0], k), nrng.randint(0, shape[1], k)] = nrng.randint(20, 120, k)
         return n
+    if kind == 'quant':      # few grey levels: the percentile threshold coincides with pixel values
+        n = nrng.choice([0, 0, 0, 30, 60, 90], size=shape)
+        return n
     if kind == 'texture':
         return nrng.randint(0, 60, size=shape)
     raise ValueError(kind)
